@@ -10,6 +10,7 @@ pub mod c11;
 pub mod c12;
 pub mod c13;
 pub mod c15;
+pub mod c16;
 pub mod c17;
 pub mod common;
 pub mod wsdlgen;
@@ -39,6 +40,7 @@ pub fn check(id: &str, tier: &str) -> i32 {
         "C12" => c12::check(tier),
         "C13" => c13::check(tier),
         "C15" => c15::check(tier),
+        "C16" => c16::check(tier),
         "C17" => c17::check(tier),
         _ => {
             eprintln!("MACHINERY-ERROR: no check for {id}");
